@@ -74,4 +74,14 @@ theorem resolve_shape :
     between g_Exclusive_call_2 (is K.write S.exclusiveItem_running) (is K.unlock S.exclusiveItem_mutex) (is K.broadcast S.exclusiveItem_cond) = true ∧
     beforeExit g_Exclusive_call_2 (is K.lock S.exclusiveItem_mutex) (is K.unlock S.exclusiveItem_mutex) = true := by decide
 
+/-- the map of items (created lazily: the zero value is ready to use) is read, created and written only while the map mutex
+    is held — in particular the "is it there yet?" test and the creation are one critical section, so first calls racing on a
+    fresh instance cannot replace a map that already holds a running item -/
+theorem work_map_only_touched_under_the_mutex :
+    ((BB.Gen.Access.table.filter (fun a => a.field == S.Exclusive_work)).all
+        (fun a => a.locks.any (fun l => l.1 == S.Exclusive_mutex && l.2 == 1))) = true ∧
+    (BB.Gen.Access.table.any (fun a => a.field == S.Exclusive_work && a.write)) = true ∧
+    has g_Exclusive_call (is K.cond S.c_e_work_eq_nil) = true := by
+  decide +kernel
+
 end BB.Conform.Exclusive
